@@ -4,8 +4,9 @@ package main
 // one process per case with its own HOME / OLLAMA_MODELS / port, talked to over HTTP only.
 
 import (
-	"bytes"
 	"bufio"
+	"bytes"
+	"context"
 	"crypto/sha256"
 	"encoding/hex"
 	"encoding/json"
@@ -19,6 +20,7 @@ import (
 	"path/filepath"
 	"sort"
 	"strings"
+	"sync/atomic"
 	"syscall"
 	"time"
 )
@@ -34,31 +36,53 @@ type Srv struct {
 	exitErr error
 	Strace  []string // when set: strace arguments placed before the binary
 	Env     []string
+	hc      *http.Client
 }
 
+var portCounter atomic.Int64
+
+// freePort hands out ports BELOW the ephemeral range (32768-60999): a port obtained from :0 and released
+// again is re-used at once as the source port of some outgoing connection when the machine has tens of
+// thousands of sockets in TIME_WAIT, and the server's bind then fails with "address already in use".
 func freePort() int {
-	l, err := net.Listen("tcp4", "127.0.0.1:0")
-	if err != nil {
-		panic(err)
+	for i := 0; i < 2000; i++ {
+		n := portCounter.Add(1)
+		p := 12000 + int((int64(os.Getpid())*131+n*7)%19000)
+		l, err := net.Listen("tcp4", fmt.Sprintf("127.0.0.1:%d", p))
+		if err != nil {
+			continue
+		}
+		l.Close()
+		return p
 	}
-	defer l.Close()
-	return l.Addr().(*net.TCPAddr).Port
+	panic("no free port below the ephemeral range")
 }
 
-var httpc = &http.Client{Timeout: 120 * time.Second, Transport: &http.Transport{DisableKeepAlives: true}}
+func newHTTPClient() *http.Client {
+	return &http.Client{Timeout: 120 * time.Second, Transport: &http.Transport{MaxIdleConnsPerHost: 4, IdleConnTimeout: 30 * time.Second}}
+}
 
 // StartSrv starts the server and waits until /api/version answers.
 func StartSrv(bin, home string, strace []string, env ...string) (*Srv, error) {
 	var lastErr error
-	for attempt := 0; attempt < 4; attempt++ {
+	for attempt := 0; attempt < 8; attempt++ {
 		s := &Srv{Bin: bin, Home: home, Models: filepath.Join(home, "models"), Port: freePort(), Strace: strace, Env: env}
 		if err := s.start(); err != nil {
 			lastErr = err
+			if !envFailure(err) {
+				return nil, err // the server itself refuses to run on this store: not worth retrying on another port
+			}
 			continue
 		}
 		return s, nil
 	}
 	return nil, lastErr
+}
+
+// envFailure: the start failed for a reason that lies in the sandbox (port taken, overloaded machine),
+// not in the server or its store. Such failures are inconclusive, never violations.
+func envFailure(err error) bool {
+	return err != nil && (strings.Contains(err.Error(), "address already in use") || strings.Contains(err.Error(), "did not come up within") || strings.Contains(err.Error(), "resource temporarily unavailable") || strings.Contains(err.Error(), "cannot allocate memory"))
 }
 
 func (s *Srv) start() error {
@@ -87,8 +111,13 @@ func (s *Srv) start() error {
 	}
 	lf.Close()
 	s.cmd = cmd
+	s.hc = newHTTPClient()
 	s.exited = make(chan struct{})
-	go func() { s.exitErr = cmd.Wait(); close(s.exited) }()
+	go func() {
+		s.exitErr = cmd.Wait()
+		close(s.exited)
+		s.hc.CloseIdleConnections()
+	}()
 	deadline := time.Now().Add(30 * time.Second)
 	for time.Now().Before(deadline) {
 		select {
@@ -108,8 +137,10 @@ func (s *Srv) start() error {
 func (s *Srv) URL() string { return fmt.Sprintf("http://127.0.0.1:%d", s.Port) }
 
 func (s *Srv) Version() bool {
-	c := &http.Client{Timeout: 5 * time.Second, Transport: &http.Transport{DisableKeepAlives: true}}
-	resp, err := c.Get(s.URL() + "/api/version")
+	ctx, cancel := context.WithTimeout(context.Background(), 5*time.Second)
+	defer cancel()
+	req, _ := http.NewRequestWithContext(ctx, "GET", s.URL()+"/api/version", nil)
+	resp, err := s.hc.Do(req)
 	if err != nil {
 		return false
 	}
@@ -218,7 +249,7 @@ func (s *Srv) post(method, path string, body any, onLine func(n int, line map[st
 	}
 	req, _ := http.NewRequest(method, s.URL()+path, rd)
 	req.Header.Set("Content-Type", "application/json")
-	resp, err := httpc.Do(req)
+	resp, err := s.hc.Do(req)
 	if err != nil {
 		return apiResult{Err: "transport: " + err.Error()}
 	}
@@ -322,7 +353,7 @@ func (s *Srv) Create(req map[string]any, onLine func(int, map[string]any)) apiRe
 
 func (s *Srv) UploadBlob(digest string, data []byte) (int, string) {
 	req, _ := http.NewRequest("POST", s.URL()+"/api/blobs/"+digest, bytes.NewReader(data))
-	resp, err := httpc.Do(req)
+	resp, err := s.hc.Do(req)
 	if err != nil {
 		return 0, err.Error()
 	}
